@@ -124,7 +124,9 @@ Definition swma_new (n : Z) (v : F) : outcome swma :=
              (frecip sum) (fmul v sum)).
 Definition swma_peek (s : swma) : F := fmul (sw_numerator s) (sw_invert_sum s).
 Definition swma_next (s : swma) (x : F) : swma * F :=
-  if w_is_empty (sw_right_window s) then (s, x) else
+  if w_is_empty (sw_right_window s)
+  then (mkSWMA (sw_right_total s) (sw_right_fl s) (sw_right_window s) (sw_left_total s) (sw_left_fl s)
+               (sw_left_window s) (sw_invert_sum s) x, x) else
   let '(rw, rp) := w_push_t (sw_right_window s) x in
   let rt := fadd (sw_right_total s) (fsub x rp) in
   let num1 := fadd (sw_numerator s) (ffma rp (sw_right_fl s) rt) in
